@@ -268,8 +268,8 @@ theorem doListenToken_kind (c : Ctx) (now : Int) :
       (doListenToken c now) := by
   obtain ⟨hnone, _⟩ := handleLostToken_txok c now
   unfold doListenToken
-  split
-  · rcases hl : handleLostToken c now with ⟨c1, _ | r⟩
+  rcases hl : handleLostToken c now with ⟨c1, _ | r⟩
+  · split
     · obtain ⟨hk, hst1, hrx⟩ := hnone c1 hl
       simp only
       split
@@ -303,9 +303,11 @@ theorem doListenToken_kind (c : Ctx) (now : Int) :
           rw [fold_noTx _ (fun c t l => listenTelegram_noTx now c t l) _ _ c' h]
           exact hk.tx
       · exact Kind.panic _
+    · exact Kind.panic _
+  · split
     · obtain ⟨hs, hk⟩ := handleLostToken_kind c now c1 r hl
       exact hk.mono (fun _ b hb => Or.inl ⟨hs, hb⟩)
-  · exact Kind.panic _
+    · exact Kind.panic _
 
 theorem doActiveIdle_kind (c : Ctx) (now : Int) :
     Kind (fun _ b => (SilenceExpired c.s now ∧ b = selfToken c.s.p.address) ∨
@@ -313,8 +315,8 @@ theorem doActiveIdle_kind (c : Ctx) (now : Int) :
       (doActiveIdle c now) := by
   obtain ⟨hnone, _⟩ := handleLostToken_txok c now
   unfold doActiveIdle
-  split
-  · rcases hl : handleLostToken c now with ⟨c1, _ | r⟩
+  rcases hl : handleLostToken c now with ⟨c1, _ | r⟩
+  · split
     · obtain ⟨hk, hst1, hrx⟩ := hnone c1 hl
       simp only
       split
@@ -344,9 +346,11 @@ theorem doActiveIdle_kind (c : Ctx) (now : Int) :
           rw [fold_noTx _ (fun c t l => idleTelegram_noTx now c t l) _ _ c' h]
           exact hk.tx
       · exact Kind.panic _
+    · exact Kind.panic _
+  · split
     · obtain ⟨hs, hk⟩ := handleLostToken_kind c now c1 r hl
       exact hk.mono (fun _ b hb => Or.inl ⟨hs, hb⟩)
-  · exact Kind.panic _
+    · exact Kind.panic _
 
 /-! ### Applications -/
 
